@@ -361,7 +361,7 @@ def r6(ctx, rep):
         raise AnchorMissing("RelVarNameAssigner::fold_rel")
     fr = fr[0]
     wl = [n for n in walk(fr["body"]) if n.get("k") == "while"]
-    ok = any("map_or(true" in show(w["c"], maxdepth=10) and "relation_instance_names.contains" in show(w["c"], maxdepth=10) for w in wl)
+    ok = any(("map_or(true" in show(w["c"], maxdepth=10) or ".unwrap_or(true)" in show(w["c"], maxdepth=10)) and "relation_instance_names.contains" in show(w["c"], maxdepth=10) for w in wl)
     ins = "relation_instance_names.insert(" in show_stmts(fr["body"], maxdepth=12)
     rep.check(ok and ins, "instance-names", "relation instance names must be generated until set and unused in the current query, and recorded",
               file=fr["file"], line=fr["l"], fn=fr["path"])
